@@ -9,11 +9,22 @@ use crate::rng::Rng;
 pub struct Qual {
     pub file_of_fn: Vec<usize>,
     pub file_of_struct: Vec<usize>,
+    pub file_of_enum: Vec<usize>,
     pub current: usize,
 }
 
 thread_local! {
     static QUAL: std::cell::RefCell<Option<Qual>> = const { std::cell::RefCell::new(None) };
+}
+
+fn qualify_enum(idx: usize, base: String) -> String {
+    QUAL.with(|q| match q.borrow().as_ref() {
+        None => base,
+        Some(q) => {
+            let f = q.file_of_enum[idx];
+            if f == q.current { base } else { format!("file{f}.{base}") }
+        }
+    })
 }
 
 fn qualify(is_fn: bool, idx: usize, base: String) -> String {
@@ -34,6 +45,9 @@ pub enum Ty {
     Arr(u32, Box<Ty>),
     Opt(Box<Ty>),
     Struct(usize),
+    Enum(usize),
+    /// error union `err!ok`
+    Eu(Box<Ty>, Box<Ty>),
 }
 
 impl Ty {
@@ -45,6 +59,8 @@ impl Ty {
             Ty::Arr(n, t) => format!("[{}]{}", n, t.capy()),
             Ty::Opt(t) => format!("?{}", t.capy()),
             Ty::Struct(i) => qualify(false, *i, format!("S{i}")),
+            Ty::Enum(i) => qualify_enum(*i, format!("E{i}")),
+            Ty::Eu(e, o) => format!("{}!{}", e.capy(), o.capy()),
         }
     }
     pub fn sexp(&self) -> String {
@@ -55,6 +71,8 @@ impl Ty {
             Ty::Arr(n, t) => format!("(arr {} {})", n, t.sexp()),
             Ty::Opt(t) => format!("(opt {})", t.sexp()),
             Ty::Struct(i) => format!("(struct {i})"),
+            Ty::Enum(i) => format!("(enum {i})"),
+            Ty::Eu(e, o) => format!("(eu {} {})", e.sexp(), o.sexp()),
         }
     }
     pub fn is_int(&self) -> bool {
@@ -116,6 +134,15 @@ pub enum Expr {
     Unwrap(Ty, Box<Expr>),          // payload type (for printing)
     IsSome(Ty, Box<Expr>),
     Ite(Box<Expr>, Box<Expr>, Box<Expr>),
+    VariantLit(usize, usize, Option<Box<Expr>>),   // enum id, variant, payload
+    IsVariant(usize, usize, Box<Expr>),
+    UnwrapVariant(usize, usize, Box<Expr>),
+    EuLit(bool, Box<Expr>),
+    EuIsOk(Ty, Box<Expr>),                          // ok type (for printing)
+    EuUnwrap(bool, Ty, Box<Expr>),                  // which side, its type
+    Try(Box<Expr>),
+    /// `T.(e)` where `e` has a variant type whose payload is `T` (the value is unchanged)
+    Coerce(Ty, Box<Expr>),
 }
 
 #[derive(Clone, Debug)]
@@ -139,6 +166,8 @@ pub enum Stmt {
     Ret(Option<Expr>),
     Defer(Box<Stmt>),
     ExprS(Expr),
+    /// scrutinee, its type, argument variable, arms (variant index → body), default arm
+    Switch(Expr, Ty, Option<usize>, Vec<(usize, Vec<Stmt>)>, Option<Vec<Stmt>>),
     /// raw Capy text (used by mutators that deliberately leave the fragment); never sent to Lean
     Raw(String),
 }
@@ -156,8 +185,15 @@ pub struct StructDef {
 }
 
 #[derive(Clone, Debug)]
+pub struct EnumDef {
+    /// payload type per variant (`None` = no payload)
+    pub variants: Vec<Option<Ty>>,
+}
+
+#[derive(Clone, Debug)]
 pub struct Program {
     pub structs: Vec<StructDef>,
+    pub enums: Vec<EnumDef>,
     /// fns[0] is main
     pub fns: Vec<Fn>,
 }
@@ -192,6 +228,15 @@ impl Expr {
             Expr::Unwrap(_, a) => format!("(unwrap {})", a.sexp()),
             Expr::IsSome(_, a) => format!("(issome {})", a.sexp()),
             Expr::Ite(c, a, b) => format!("(ite {} {} {})", c.sexp(), a.sexp(), b.sexp()),
+            Expr::VariantLit(_, k, None) => format!("(variant {k})"),
+            Expr::VariantLit(_, k, Some(a)) => format!("(variant {k} {})", a.sexp()),
+            Expr::IsVariant(_, k, a) => format!("(isvariant {k} {})", a.sexp()),
+            Expr::UnwrapVariant(_, k, a) => format!("(unwrapv {k} {})", a.sexp()),
+            Expr::EuLit(b, a) => format!("(eulit {} {})", *b as u8, a.sexp()),
+            Expr::EuIsOk(_, a) => format!("(euisok {})", a.sexp()),
+            Expr::EuUnwrap(b, _, a) => format!("(euunwrap {} {})", *b as u8, a.sexp()),
+            Expr::Try(a) => format!("(try {})", a.sexp()),
+            Expr::Coerce(_, a) => a.sexp(),
         }
     }
 }
@@ -227,6 +272,13 @@ impl Stmt {
             Stmt::Defer(s) => format!("(defer {})", s.sexp()),
             Stmt::ExprS(e) => format!("(expr {})", e.sexp()),
             Stmt::Raw(_) => "(raw)".into(),
+            Stmt::Switch(sc, _, arg, arms, d) => {
+                let mut parts: Vec<String> = arms.iter().map(|(k, b)| format!("(arm {} {})", k, stmts_sexp(b))).collect();
+                if let Some(d) = d {
+                    parts.push(format!("(default {})", stmts_sexp(d)));
+                }
+                format!("(switch {} {} {})", sc.sexp(), arg.map(|x| x.to_string()).unwrap_or("-".into()), parts.join(" "))
+            }
         }
     }
 }
@@ -290,6 +342,15 @@ impl Expr {
             Expr::Unwrap(t, a) => format!("#unwrap({}, {})", a.capy(), t.capy()),
             Expr::IsSome(t, a) => format!("#is_variant({}, {})", a.capy(), t.capy()),
             Expr::Ite(c, a, b) => format!("(if {} {{ {} }} else {{ {} }})", c.capy(), a.capy(), b.capy()),
+            Expr::VariantLit(e, k, None) => format!("{}.V{k}", qualify_enum(*e, format!("E{e}"))),
+            Expr::VariantLit(e, k, Some(a)) => format!("{}.V{k}.({})", qualify_enum(*e, format!("E{e}")), a.capy()),
+            Expr::IsVariant(e, k, a) => format!("#is_variant({}, {}.V{k})", a.capy(), qualify_enum(*e, format!("E{e}"))),
+            Expr::UnwrapVariant(e, k, a) => format!("#unwrap({}, {}.V{k})", a.capy(), qualify_enum(*e, format!("E{e}"))),
+            Expr::EuLit(_, a) => a.capy(),
+            Expr::EuIsOk(t, a) => format!("#is_variant({}, {})", a.capy(), t.capy()),
+            Expr::EuUnwrap(_, t, a) => format!("#unwrap({}, {})", a.capy(), t.capy()),
+            Expr::Try(a) => format!("{}.try", a.capy()),
+            Expr::Coerce(t, a) => format!("{}.({})", t.capy(), a.capy()),
         }
     }
 }
@@ -353,6 +414,29 @@ impl Stmt {
             }
             Stmt::ExprS(e) => out.push_str(&format!("{pad}{};\n", e.capy())),
             Stmt::Raw(t) => out.push_str(&format!("{pad}{t}\n")),
+            Stmt::Switch(sc, ty, arg, arms, d) => {
+                match arg {
+                    Some(x) => out.push_str(&format!("{pad}switch v{x} in {} {{\n", sc.capy())),
+                    None => out.push_str(&format!("{pad}switch {} {{\n", sc.capy())),
+                }
+                for (k, b) in arms {
+                    let head = match ty {
+                        Ty::Enum(_) => format!(".V{k}"),
+                        Ty::Opt(p) => if *k == 0 { "nil".to_string() } else { p.capy() },
+                        Ty::Eu(e, o) => if *k == 0 { e.capy() } else { o.capy() },
+                        _ => "?".into(),
+                    };
+                    out.push_str(&format!("{pad}    {head} => {{\n"));
+                    stmts_capy(b, ind + 2, out);
+                    out.push_str(&format!("{pad}    }},\n"));
+                }
+                if let Some(d) = d {
+                    out.push_str(&format!("{pad}    _ => {{\n"));
+                    stmts_capy(d, ind + 2, out);
+                    out.push_str(&format!("{pad}    }},\n"));
+                }
+                out.push_str(&format!("{pad}}}\n"));
+            }
         }
     }
 }
@@ -360,12 +444,13 @@ impl Stmt {
 #[derive(Clone, Copy, Debug, PartialEq, Eq)]
 pub enum Global {
     Struct(usize),
+    Enum(usize),
     Fn(usize),
 }
 
 impl Program {
     pub fn globals(&self) -> Vec<Global> {
-        (0..self.structs.len()).map(Global::Struct).chain((0..self.fns.len()).map(Global::Fn)).collect()
+        (0..self.structs.len()).map(Global::Struct).chain((0..self.enums.len()).map(Global::Enum)).chain((0..self.fns.len()).map(Global::Fn)).collect()
     }
 
     fn global_capy(&self, g: Global) -> String {
@@ -374,6 +459,20 @@ impl Program {
                 "S{} :: struct {{ {} }};\n\n",
                 i,
                 self.structs[i].fields.iter().enumerate().map(|(k, t)| format!("m{}: {}", k, t.capy())).collect::<Vec<_>>().join(", ")
+            ),
+            Global::Enum(i) => format!(
+                "E{} :: enum {{ {} }};\n\n",
+                i,
+                self.enums[i]
+                    .variants
+                    .iter()
+                    .enumerate()
+                    .map(|(k, t)| match t {
+                        Some(t) => format!("V{}: {}", k, t.capy()),
+                        None => format!("V{k}"),
+                    })
+                    .collect::<Vec<_>>()
+                    .join(", ")
             ),
             Global::Fn(i) => {
                 let f = &self.fns[i];
@@ -403,6 +502,7 @@ impl Program {
         let q = Qual {
             file_of_fn: (0..self.fns.len()).map(|i| file_of(Global::Fn(i))).collect(),
             file_of_struct: (0..self.structs.len()).map(|i| file_of(Global::Struct(i))).collect(),
+            file_of_enum: (0..self.enums.len()).map(|i| file_of(Global::Enum(i))).collect(),
             current: 0,
         };
         let mut files = vec![];
@@ -426,25 +526,12 @@ impl Program {
         files
     }
 
-    /// `order`: the textual order of the global definitions (indices: structs first, then fns)
+    /// one file: structs, enums, then the functions (callers after callees)
     pub fn capy(&self) -> String {
-        let mut s = String::from("core :: #mod(\"core\");\n\n");
-        for (i, sd) in self.structs.iter().enumerate() {
-            s.push_str(&format!(
-                "S{} :: struct {{ {} }};\n\n",
-                i,
-                sd.fields.iter().enumerate().map(|(k, t)| format!("m{}: {}", k, t.capy())).collect::<Vec<_>>().join(", ")
-            ));
-        }
-        for (i, f) in self.fns.iter().enumerate().rev() {
-            let name = if i == 0 { "main".to_string() } else { format!("f{i}") };
-            let params = f.params.iter().map(|(x, t)| format!("v{}: {}", x, t.capy())).collect::<Vec<_>>().join(", ");
-            let ret = if f.ret == Ty::Void { String::new() } else { format!(" -> {}", f.ret.capy()) };
-            s.push_str(&format!("{name} :: ({params}){ret} {{\n"));
-            stmts_capy(&f.body, 1, &mut s);
-            s.push_str("}\n\n");
-        }
-        s
+        let mut order: Vec<Global> = (0..self.structs.len()).map(Global::Struct).collect();
+        order.extend((0..self.enums.len()).map(Global::Enum));
+        order.extend((0..self.fns.len()).rev().map(Global::Fn));
+        self.capy_ordered(&order)
     }
 }
 
@@ -477,6 +564,7 @@ struct Gen<'a> {
     rng: &'a mut Rng,
     cfg: &'a GenCfg,
     structs: Vec<StructDef>,
+    enums: Vec<EnumDef>,
     /// signatures of the functions generated so far (callable from later ones): index → (params, ret)
     sigs: Vec<(usize, Vec<Ty>, Ty)>,
     next_var: usize,
@@ -507,6 +595,12 @@ impl<'a> Gen<'a> {
             }
             2 if depth > 0 => Ty::Opt(Box::new(self.scalar_ty())),
             3 | 4 if !self.structs.is_empty() => Ty::Struct(self.rng.below(self.structs.len() as u64) as usize),
+            5 if !self.enums.is_empty() => Ty::Enum(self.rng.below(self.enums.len() as u64) as usize),
+            6 if depth > 0 => {
+                // error union: the error side is bool or an enum, the ok side an integer
+                let e = if !self.enums.is_empty() && self.rng.chance(1, 2) { Ty::Enum(self.rng.below(self.enums.len() as u64) as usize) } else { Ty::Bool };
+                Ty::Eu(Box::new(e), Box::new(self.int_ty()))
+            }
             _ => self.scalar_ty(),
         }
     }
@@ -669,8 +763,95 @@ impl<'a> Gen<'a> {
                     Expr::SomeE(Box::new(self.expr(p, d)))
                 }
             }
+            Ty::Enum(id) => {
+                let vs = self.vars_of(t);
+                if !vs.is_empty() && self.rng.chance(1, 2) {
+                    return Expr::Var(self.rng.pick(&vs).id);
+                }
+                if depth > 0 && self.rng.chance(1, 5) {
+                    return self.call_or(t, depth);
+                }
+                let variants = self.enums[*id].variants.clone();
+                let k = self.rng.below(variants.len() as u64) as usize;
+                let d = depth.saturating_sub(1);
+                match &variants[k] {
+                    None => Expr::VariantLit(*id, k, None),
+                    Some(pt) => Expr::VariantLit(*id, k, Some(Box::new(self.expr(pt, d)))),
+                }
+            }
+            Ty::Eu(e, o) => {
+                let vs = self.vars_of(t);
+                if !vs.is_empty() && self.rng.chance(1, 3) {
+                    return Expr::Var(self.rng.pick(&vs).id);
+                }
+                if depth > 0 && self.rng.chance(1, 5) {
+                    return self.call_or(t, depth);
+                }
+                let d = depth.saturating_sub(1);
+                if self.rng.chance(2, 3) {
+                    Expr::EuLit(true, Box::new(self.expr(o, d)))
+                } else {
+                    Expr::EuLit(false, Box::new(self.expr(e, d)))
+                }
+            }
             Ty::Void => Expr::BLit(false),
         }
+    }
+
+    /// a statement that switches over a variable of sum type
+    fn switch_stmt(&mut self, depth: u32, budget: &mut usize) -> Option<Stmt> {
+        let cands: Vec<VarInfo> = self.vars.iter().filter(|v| matches!(v.ty, Ty::Enum(_) | Ty::Opt(_) | Ty::Eu(..))).cloned().collect();
+        if cands.is_empty() {
+            return None;
+        }
+        let v = self.rng.pick(&cands).clone();
+        // payload type per variant index
+        let payloads: Vec<Option<Ty>> = match &v.ty {
+            Ty::Enum(id) => self.enums[*id].variants.clone(),
+            Ty::Opt(p) => vec![None, Some((**p).clone())],
+            Ty::Eu(e, o) => vec![Some((**e).clone()), Some((**o).clone())],
+            _ => return None,
+        };
+        let with_arg = self.rng.chance(2, 3);
+        let arg = if with_arg { Some(self.fresh_var()) } else { None };
+        let mut arms = vec![];
+        let mut covered = 0;
+        for (k, p) in payloads.iter().enumerate() {
+            if self.rng.chance(3, 4) {
+                covered += 1;
+                let saved = self.vars.len();
+                let mut pre = vec![];
+                if let (Some(a), Some(pt)) = (arg, p) {
+                    if matches!(v.ty, Ty::Enum(_)) {
+                        // the argument has the VARIANT type; a plain copy is made with a cast
+                        let c = self.fresh_var();
+                        pre.push(Stmt::Let(c, pt.clone(), false, Expr::Coerce(pt.clone(), Box::new(Expr::Var(a)))));
+                        self.vars.push(VarInfo { id: c, ty: pt.clone(), mutable: false, reserved: false });
+                    } else {
+                        self.vars.push(VarInfo { id: a, ty: pt.clone(), mutable: false, reserved: false });
+                    }
+                }
+                let mut body = pre;
+                body.extend(self.stmts(depth + 1, budget));
+                self.vars.truncate(saved);
+                arms.push((k, body));
+            }
+        }
+        let default = if covered < payloads.len() || self.rng.chance(1, 5) {
+            let saved = self.vars.len();
+            if let Some(a) = arg {
+                self.vars.push(VarInfo { id: a, ty: v.ty.clone(), mutable: false, reserved: false });
+            }
+            let body = self.stmts(depth + 1, budget);
+            self.vars.truncate(saved);
+            Some(body)
+        } else {
+            None
+        };
+        if arms.is_empty() && default.is_none() {
+            return None;
+        }
+        Some(Stmt::Switch(Expr::Var(v.id), v.ty.clone(), arg, arms, default))
     }
 
     fn call_or(&mut self, t: &Ty, depth: u32) -> Expr {
@@ -749,6 +930,31 @@ impl<'a> Gen<'a> {
     }
 
     fn unwrap_of(&mut self, t: &Ty, _depth: u32) -> Expr {
+        // a guarded #unwrap of an enum variant / the ok side of an error union with payload `t`
+        let vars = self.vars.clone();
+        for v in &vars {
+            match &v.ty {
+                Ty::Enum(id) if self.rng.chance(1, 2) => {
+                    for (k, p) in self.enums[*id].variants.clone().iter().enumerate() {
+                        if p.as_ref() == Some(t) {
+                            return Expr::Ite(
+                                Box::new(Expr::IsVariant(*id, k, Box::new(Expr::Var(v.id)))),
+                                Box::new(Expr::Coerce(t.clone(), Box::new(Expr::UnwrapVariant(*id, k, Box::new(Expr::Var(v.id)))))),
+                                Box::new(self.lit(t)),
+                            );
+                        }
+                    }
+                }
+                Ty::Eu(_, o) if &**o == t && self.rng.chance(1, 2) => {
+                    return Expr::Ite(
+                        Box::new(Expr::EuIsOk(t.clone(), Box::new(Expr::Var(v.id)))),
+                        Box::new(Expr::EuUnwrap(true, t.clone(), Box::new(Expr::Var(v.id)))),
+                        Box::new(self.lit(t)),
+                    );
+                }
+                _ => {}
+            }
+        }
         let want = Ty::Opt(Box::new(t.clone()));
         let vs = self.vars_of(&want);
         if let Some(v) = vs.first().cloned() {
@@ -866,6 +1072,41 @@ impl<'a> Gen<'a> {
                     self.labels.pop();
                 }
                 out.push(Stmt::Block(l, b));
+            } else if c < 94 && depth < self.cfg.max_depth {
+                match self.switch_stmt(depth, budget) {
+                    Some(sw) => out.push(sw),
+                    None => out.push(self.print_stmt(edepth)),
+                }
+            } else if c < 95 {
+                // `.try`: only where the enclosing function can propagate
+                match self.ret_ty.clone() {
+                    rt @ (Ty::Opt(_) | Ty::Eu(..)) => {
+                        // the operand is a variable of optional / error-union type (same error type)
+                        let cands: Vec<VarInfo> = self
+                            .vars
+                            .iter()
+                            .filter(|v| match (&v.ty, &rt) {
+                                (Ty::Opt(p), Ty::Opt(_)) => matches!(**p, Ty::Int(..) | Ty::Bool),
+                                (Ty::Eu(e1, _), Ty::Eu(e2, _)) => e1 == e2,
+                                _ => false,
+                            })
+                            .cloned()
+                            .collect();
+                        if let Some(v) = cands.first().cloned() {
+                            let pt = match &v.ty {
+                                Ty::Opt(p) => (**p).clone(),
+                                Ty::Eu(_, o) => (**o).clone(),
+                                _ => unreachable!(),
+                            };
+                            let id = self.fresh_var();
+                            out.push(Stmt::Let(id, pt.clone(), false, Expr::Try(Box::new(Expr::Var(v.id)))));
+                            self.vars.push(VarInfo { id, ty: pt, mutable: false, reserved: false });
+                        } else {
+                            out.push(self.print_stmt(edepth));
+                        }
+                    }
+                    _ => out.push(self.print_stmt(edepth)),
+                }
             } else if c < 97 && (depth > 0) {
                 // conditional jump
                 let cnd = self.expr(&Ty::Bool, 1);
@@ -898,6 +1139,7 @@ pub fn gen_program(rng: &mut Rng, cfg: &GenCfg) -> Program {
         rng,
         cfg,
         structs: vec![],
+        enums: vec![],
         sigs: vec![],
         next_var: 0,
         next_label: 0,
@@ -920,6 +1162,21 @@ pub fn gen_program(rng: &mut Rng, cfg: &GenCfg) -> Program {
             fields.push(t);
         }
         g.structs.push(StructDef { fields });
+    }
+    // enums: 1-4 variants with scalar / array / struct payloads or none
+    let ne = g.rng.below(3) as usize;
+    for _ in 0..ne {
+        let nv = 1 + g.rng.below(4) as usize;
+        let mut variants = vec![];
+        for _ in 0..nv {
+            variants.push(match g.rng.below(5) {
+                0 | 1 => None,
+                2 if !g.structs.is_empty() => Some(Ty::Struct(g.rng.below(g.structs.len() as u64) as usize)),
+                3 => Some(Ty::Arr(1 + g.rng.below(3) as u32, Box::new(g.scalar_ty()))),
+                _ => Some(g.scalar_ty()),
+            });
+        }
+        g.enums.push(EnumDef { variants });
     }
     // helper functions f_k … f_1 (each may call the ones generated before it), then main
     let nf = g.rng.below(cfg.max_fns as u64) as usize;
@@ -961,5 +1218,5 @@ pub fn gen_program(rng: &mut Rng, cfg: &GenCfg) -> Program {
         body.push(Stmt::Ret(Some(e)));
     }
     fns[0] = Some(Fn { params: vec![], ret: main_ret, body });
-    Program { structs: g.structs.clone(), fns: fns.into_iter().map(|f| f.unwrap()).collect() }
+    Program { structs: g.structs.clone(), enums: g.enums.clone(), fns: fns.into_iter().map(|f| f.unwrap()).collect() }
 }
